@@ -14,6 +14,8 @@ Inductive choice := C_Lock (r : nat) | C_Unlock (r : nat) | C_Flush (r : nat) | 
 Definition upd {A} (f : nat -> A) (k : nat) (v : A) : nat -> A := fun x => if Nat.eqb x k then v else f x.
 Definition view (x : reader) : word := last (rbuf x) (rmem x).
 Definition in_cs (x : reader) : bool := match pc x with R_In _ _ => true | _ => false end.
+Section MB.
+Variable isreg : nat -> bool.      (* the registry the updater scans; sections of unregistered threads are not covered *)
 Definition setrd (s : state) r x : state := {| gpar := gpar s; rd := upd (rd s) r x; loc := loc s; ph := ph s |}.
 
 Definition step (c : choice) (s : state) : state :=
@@ -38,8 +40,8 @@ Definition step (c : choice) (s : state) : state :=
       match rbuf x with [] => s | w :: b => setrd s r {| rmem := w; rbuf := b; pc := pc x; old_open := old_open x |} end
   | C_UNext =>
       match ph s with
-      | U_Idle => {| gpar := gpar s; rd := fun r => let x := rd s r in {| rmem := rmem x; rbuf := rbuf x; pc := pc x; old_open := in_cs x |}; loc := loc s; ph := U_Started |}
-      | U_Started => {| gpar := gpar s; rd := rd s; loc := fun _ => W_input; ph := U_Scan1 |}     (* local smp_mb: readers' buffers untouched *)
+      | U_Idle => {| gpar := gpar s; rd := fun r => let x := rd s r in {| rmem := rmem x; rbuf := rbuf x; pc := pc x; old_open := in_cs x && isreg r |}; loc := loc s; ph := U_Started |}
+      | U_Started => {| gpar := gpar s; rd := rd s; loc := fun r => if isreg r || old_open (rd s r) then W_input else W_qs; ph := U_Scan1 |}     (* local smp_mb: readers' buffers untouched *)
       | _ => s
       end
   | C_UScan r =>
@@ -159,14 +161,14 @@ Proof.
   - (* updater next *)
     destruct (ph s) eqn:Eph; try exact HI.
     + split; [|split; [|split]]; cbn.
-      * intros r0. destruct (HRI r0) as [Hr Hoo]. split; cbn; [exact Hr|]. unfold in_cs; cbn. auto.
+      * intros r0. destruct (HRI r0) as [Hr Hoo]. split; cbn; [exact Hr|]. unfold in_cs; cbn. intros H. apply andb_prop in H. exact (proj1 H).
       * discriminate.
       * discriminate.
       * intros [H|H]; discriminate.
     + (* Started -> Scan1: nothing is drained; the pre-existing sections already satisfy the scan invariant *)
       split; [|split; [|split]]; cbn; try exact HRI; try discriminate.
       intros _ r0. unfold K; cbn. intros Ho. destruct (HRI r0) as [Hr Hoo]. specialize (Hoo Ho).
-      unfold in_cs in Hoo. destruct (pc (rd s r0)) as [| | |p n]; try discriminate. left; reflexivity.
+      unfold in_cs in Hoo. destruct (pc (rd s r0)) as [| | |p n]; try discriminate. left. rewrite Ho. rewrite orb_true_r. reflexivity.
   - (* scan *)
     destruct (ph s) eqn:Eph; try exact HI.
     + destruct (loc s r) eqn:El; try exact HI.
@@ -225,4 +227,5 @@ Proof.
   { induction Hr as [|s s' _ IH Ht]; [apply Inv_init|]. destruct Ht as [c s|s s' Hu]; [apply Inv_step; exact IH|eapply Inv_ustep; eassumption]. }
   destruct HI as (_ & H & _). exact H.
 Qed.
+End MB.
 Print Assumptions gp_mb_waits_for_preexisting_readers.
